@@ -58,9 +58,14 @@ def replay_table(ctx, path, signed, fn, selftest=False):
 def run(ctx):
     ctx.rule = ("TLC evaluates the declarative spec (VekOps) for every value of the 8-bit type per bound pair; "
                 "vek is run on every entry for i8/u8 and their Wrapping forms, on scaled (x*2^(bits-8)) and unscaled "
-                "copies for the 16 wider integer types, and through the vector forms of all 13 vector types; "
+                "copies for the 16 wider integer types (sound by the scaling laws Clamp/IsBetween/Wrapped/WrapBetween/PingPong(k x, k b) "
+                "= k * (...), which TLAPS proves for ALL integers in spec/Proof_Ops.tla), and through the vector forms of all "
+                "13 vector types; "
                 "non-trivial = table row (fn, lo, hi) whose bounds are valid (some non-panic entry)")
     model_runs(ctx)
+    # the scaling laws that justify replaying the 8-bit tables on the wide types, proved for all integers
+    core.tlaps(ctx, "Proof_Ops", deps=("VekOpsCore",),
+               expect_theorems=("ModScale", "ClampScale", "IsBetweenScale", "WrappedScale", "WrapBetweenScale", "PingPongScale"))
     jobs = [(s, f) for s in (1, 0) for f in TERNARY + BINARY]
     with ThreadPoolExecutor(max_workers=3 if ctx.tier == "thorough" else 5) as ex:
         paths = list(ex.map(lambda j: tables(ctx, *j), jobs))
